@@ -264,7 +264,10 @@ class Terminal(Service, discriminator="terminal"):
     def _get_connection_from_ip(self, ip_address: IPv4Address) -> Optional[RemoteTerminalConnection]:
         """Find Remote Terminal Connection from a given IP."""
         for connection in self._connections.values():
-            if connection.ip_address == ip_address:
+            # (the table also holds the server ends of sessions opened FROM that address: those are not ours to command)
+            if connection.ip_address == ip_address and not self.parent.user_session_manager.validate_remote_session_uuid(
+                connection.connection_uuid
+            ):
                 return connection
 
     def _create_local_connection(self, connection_uuid: str, session_id: str) -> TerminalClientConnection:
